@@ -82,6 +82,15 @@ func (cl *CheckpointList) Save(fs storage.FileSystem) (string, error) {
 	return file.URI(), nil
 }
 
+// Discard drops a checkpoint that could not be completed. Its WAL file was never
+// written, so the checkpoint must neither be listed nor have its files removed
+// later.
+func (cl *CheckpointList) Discard(ckptID uint64) {
+	cl.checkpoints = slices.DeleteFunc(cl.checkpoints, func(cp *Checkpoint) bool {
+		return cp.ID == ckptID
+	})
+}
+
 func (cl *CheckpointList) IsEmpty() bool {
 	return len(cl.checkpoints) == 0
 }
